@@ -115,6 +115,21 @@ def run(ctx):
             ctx.unknown("C02.ess", construct, loc, "no store to self.effective_sample_size")
         else:
             check_ess(ctx, "C02.ess", construct, loc, ess, log_w)
+        # derived quantities
+        wts, evd, err, rel = (ev.heap.get((SELF, k)) for k in ("weights", "evidence", "evidence_error", "log_evidence_error"))
+        if wts is not None:
+            ctx.decide(wts == spec("exp(w)", w=log_w), "C02.derived", construct, loc, "weights == exp(log_w)", f"weights is {T.show(wts)[:200]}", disc="weights")
+        if evd is not None and le is not None:
+            ctx.decide(evd == spec("exp(z)", z=le), "C02.derived", construct, loc, "evidence == exp(log_evidence)", f"evidence is {T.show(evd)[:200]}", disc="evidence")
+        if err is not None and wts is not None and evd is not None:
+            want_e = spec("sqrt(sum((w - Z)**2) / (N * (N - 1)))", w=wts, Z=evd, N=N)
+            ctx.decide(err == want_e, "C02.derived", construct, loc, "evidence_error == sqrt(sum((w - Z)^2) / (N (N-1)))  (standard error of the mean weight)",
+                       f"evidence_error is {T.show(err)[:260]}", disc="evidence_error")
+        if rel is not None and le is not None:
+            want_r = spec("sqrt(sum((exp(w - z) - 1)**2) / (N * (N - 1)))", w=log_w, z=le, N=N)
+            alt_r = spec("abs(e / Z)", e=err, Z=evd) if err is not None and evd is not None else None
+            ctx.decide(rel in (want_r, alt_r), "C02.derived", construct, loc, "log_evidence_error == relative standard error of the mean weight, sqrt(sum((w/Z - 1)^2) / (N (N-1)))",
+                       f"log_evidence_error is {T.show(rel)[:260]}", disc="log_evidence_error")
         # symmetric operations only
         bad = []
         for name in ("log_w", "log_evidence", "effective_sample_size", "log_evidence_error"):
@@ -195,7 +210,7 @@ def run(ctx):
         kw = {"axis": axis} if axis is not None else {}
         tpl = spec("c + log(sum(exp(x - c), axis=axis))", c=cand, x=x, axis=axis) if axis is not None else None
         tpl2 = spec("c + log(sum(exp(x - c)))", c=cand, x=x)
-        if ret in (tpl, tpl2):
+        if ret == tpl or (axis is None and ret == tpl2):
             ok = True
             detail = f"logsumexp(x) == c + log(sum(exp(x - c))) with c = {T.show(cand)}"
     ctx.decide(ok, "C02.lse", f.ident, loc_of(f), detail,
@@ -258,6 +273,7 @@ def run(ctx):
                        f"rejection mask is not (log_w - max(log_w) > log U): {why}")
             flds = {k: v for k, v in kw.items() if k in ("log_likelihood", "log_prior", "log_q")}
             bad = [k for k, v in flds.items() if T.strip_raise(v) != ("s", self_attr(k), mask)]
+            bad += [f"{k} (dropped)" for k in ("log_likelihood", "log_prior") if k not in flds]
             ctx.decide(not bad, "C02.rejidx", m.ident, loc_of(m, news[0].node),
                        f"kept fields {sorted(flds)} are indexed by the same mask as x",
                        f"field(s) {bad} not indexed by the acceptance mask of x")
@@ -302,6 +318,13 @@ MUTANTS = [
       "self.effective_sample_size = self.xp.sum(self.xp.exp(self.log_w)) ** 2 / self.xp.sum(self.xp.exp(self.log_w) ** 2)",
       "C02.ovf", within="Samples.compute_weights"),
 ]
+MUTANTS += [
+    M("weights of the squared log-weight", _S, "self.weights = self.xp.exp(self.log_w)", "self.weights = self.xp.exp(2 * self.log_w)", "C02.derived"),
+    M("evidence error divides by N squared", _S, "self.xp.sum((self.weights - self.evidence) ** 2) / (n * (n - 1))", "self.xp.sum((self.weights - self.evidence) ** 2) / (n * n)", "C02.derived"),
+    M("relative error without centring", _S, "self.xp.sum((rel_w - 1.0) ** 2) / (n * (n - 1))", "self.xp.sum(rel_w ** 2) / (n * (n - 1))", "C02.derived"),
+    M("rejection sample drops the likelihood", _S, "log_likelihood=self.log_likelihood[accept],\n            log_prior=self.log_prior[accept],\n            dtype=self.dtype,", "log_prior=self.log_prior[accept],\n            dtype=self.dtype,", "C02.rejidx"),
+    M("logsumexp ignores axis", _U, "return c + xp.log(xp.sum(xp.exp(x - c), axis=axis))", "return c + xp.log(xp.sum(xp.exp(x - c)))", "C02.lse"),
+]
 NEUTRALS = [
     M("log_w operands reordered", _S, "self.log_w = self.log_likelihood + self.log_prior - self.log_q",
       "self.log_w = -self.log_q + self.log_prior + self.log_likelihood"),
@@ -313,4 +336,15 @@ NEUTRALS = [
     M("rejection mirrored comparison", _S, "accept = log_w > log_u", "accept = log_u < log_w"),
     M("scaled weights via temporary", _S, "return self.xp.exp(self.log_w - self.xp.max(self.log_w))",
       "m = self.log_w.max()\n        return self.xp.exp(self.log_w - m)"),
+]
+
+# functions the property is anchored in (auto-mutant sweep of the thorough tier)
+ANCHORS = [
+    'aspire.samples:Samples.compute_weights',
+    'aspire.samples:Samples.__getitem__',
+    'aspire.samples:Samples.efficiency',
+    'aspire.samples:Samples.scaled_weights',
+    'aspire.samples:Samples.rejection_sample',
+    'aspire.utils:logsumexp',
+    'aspire.utils:effective_sample_size',
 ]
